@@ -54,6 +54,10 @@ class ExternalMementoFunctionBase(MementoFunctionBase, ABC):
     @property
     def cluster_name(self):
         """Name of the cluster to which this function belongs"""
+        # The reference is still being built while the constructor runs; a function of
+        # the default cluster has no cluster name.
+        if self._fn_reference is None:
+            return None
         return self._fn_reference.cluster_name
 
     context = None  # type: InvocationContext
@@ -196,8 +200,6 @@ class UnboundExternalMementoFunction(ExternalMementoFunctionBase):
         parameter_names: Optional[List[str]] = None,
         fn_reference: Optional[FunctionReference] = None,
     ):
-        assert fn_reference or cluster_name is not None, "Cluster name is required"
-
         if fn_reference is None:
             fn_reference = FunctionReference(
                 memento_fn=self,
